@@ -4,9 +4,9 @@ from __future__ import annotations
 import ast
 import re
 
-from ..eqmodel import attrs_read, eq_disjuncts
+from ..eqmodel import attrs_read, attrs_read_deep, classify, dnf, eq_disjuncts, returned_bool
 from ..pymodel import package
-from ..valueflow import Flow, as_map, match, V, show, simp, walk, norm_guard
+from ..valueflow import Flow, as_map, match, V, show, simp, subst, walk, norm_guard
 from .c09 import hash_contract
 
 EXPLANATION = (
@@ -45,8 +45,12 @@ def _r1(ctx, pkg):
     ef = pkg.method("Reaction", "__eq__")
     rp = pkg.method("Reaction", "rpeq")
     ctx.saw(RF, "Reaction.__hash__")
-    reads = attrs_read(hf)
-    compared = attrs_read(ef) | attrs_read(rp)
+
+    def res(name):
+        return pkg.resolve("Reaction", name)[1]
+    # what the methods read, looking through predicate / key helpers of the class they call
+    reads = attrs_read_deep(hf, res)
+    compared = attrs_read_deep(ef, res) | attrs_read_deep(rp, res)
     extra = sorted(reads - compared)
     ctx.check(not extra, "R1", "Reaction.__hash__:reads", (RF, hf.lineno),
               "the hash reads only what __eq__/rpeq compare" if not extra else f"the hash reads {extra}, which equality ignores: equal reactions get different hashes",
@@ -56,6 +60,7 @@ def _r1(ctx, pkg):
     # whose key equal species share -- a name order does not (e- / E, #CO / GCO sort apart and misalign the lists)
     rsorts = [c for c in ast.walk(rp) if isinstance(c, ast.Call) and ast.unparse(c.func) == "sorted"]
     rsrc = ast.unparse(rp)
+    EXP = "Counter(self.reactants) == Counter(o.reactants) and Counter(self.products) == Counter(o.products)"
     if rsorts:
         lt0 = pkg.method("Species", "__lt__")
         keyset = attrs_read(lt0)
@@ -69,11 +74,39 @@ def _r1(ctx, pkg):
                   "the canonical order uses a key that equal species share" if not loose0 else
                   f"rpeq compares lists sorted by {sorted(keyset)}, but Species.__eq__ equates species whose {sorted(keyset)} differ (disjuncts {loose0}): with a partner that "
                   "sorts between the two spellings the lists misalign, == is False while the hashes agree, and the repeat is entered as a new key",
-                  expected="Counter(self.reactants) == Counter(o.reactants) and Counter(self.products) == Counter(o.products)", found=" ".join(rsrc.split())[-160:])
+                  expected=EXP, found=" ".join(rsrc.split())[-160:])
     else:
-        okc = all(re.search(rf"Counter\(self\.{a}\)\s*==\s*Counter\(\w+\.{a}\)", rsrc) for a in ("reactants", "products"))
-        ctx.check(okc, "R1", "Reaction.rpeq:multiset comparison", (RF, rp.lineno), "both sides are compared as Counters (multisets under Species equality and hash)",
-                  expected="Counter(self.reactants) == Counter(o.reactants) and Counter(self.products) == Counter(o.products)", found=" ".join(rsrc.split())[-160:])
+        # the value rpeq returns as one expression (guard clauses, locals and predicate helpers folded): a conjunction in which
+        # each side is compared as Counter(self.X) == Counter(o.X)
+        rx = returned_bool(rp, res)
+        K = "Reaction.rpeq:multiset comparison"
+        if rx is None:
+            ctx.unrec("R1", K, (RF, rp.lineno), "the value rpeq returns is not understood as one boolean expression")
+        else:
+            args = [a.arg for a in rp.args.args]
+            conj = dnf(rx)
+            lits = classify(conj[0], args[0], args[1]) if len(conj) == 1 and len(args) == 2 else None
+            found = " ".join(ast.unparse(rx).split())[-160:]
+            if lits is None:
+                # a disjunction: some way of being "equal" does not compare both sides
+                sides = [{a for a in ("reactants", "products") if any(a in ast.unparse(x) for x in c)} for c in conj]
+                if all(s_ == {"reactants", "products"} for s_ in sides):
+                    ctx.unrec("R1", K, (RF, rp.lineno), f"rpeq is a disjunction this rule does not read: {found}")
+                else:
+                    ctx.bad("R1", K, (RF, rp.lineno), "rpeq holds in a case that does not compare both the reactants and the products", expected=EXP, found=found)
+            else:
+                okc = all(("eq", f"Counter({a})") in lits for a in ("reactants", "products"))
+                if okc:
+                    ctx.ok("R1", K, (RF, rp.lineno), "both sides are compared as Counters (multisets under Species equality and hash)")
+                else:
+                    # positive evidence: the side is compared, but not as a multiset (set / frozenset / list / tuple / len ...), or is
+                    # not compared at all in a conjunction that is otherwise understood
+                    bad_side = [a for a in ("reactants", "products") if ("eq", f"Counter({a})") not in lits]
+                    opaque = [l for l in lits if l[0] != "eq" and any(a in l[-1] for a in bad_side)]
+                    if opaque:
+                        ctx.unrec("R1", K, (RF, rp.lineno), f"comparison of {bad_side} not recognised: {found}")
+                    else:
+                        ctx.bad("R1", K, (RF, rp.lineno), "both sides are compared as Counters (multisets under Species equality and hash)", expected=EXP, found=found)
     # canonicalising order
     sorts = [c for c in ast.walk(hf) if isinstance(c, ast.Call) and ast.unparse(c.func) == "sorted"]
     if not sorts:
@@ -104,56 +137,155 @@ def _r1(ctx, pkg):
                   expected="an order-free hash (multisets), as rpeq compares", found=ast.unparse(hf.body[-1])[:120])
 
 
+def _mode_value(c, m):
+    """truth of a condition on the `mode` parameter for the abstract mode m in ("none", "brief", "text"); None = not decided"""
+    MODE = ("param", "mode")
+    if c[0] == "unop" and c[1] == "Not":
+        x = _mode_value(c[2], m)
+        return None if x is None else not x
+    if c[0] == "bool":
+        vals = [_mode_value(x, m) for x in c[2]]
+        if c[1] == "And":
+            return False if any(v is False for v in vals) else None if any(v is None for v in vals) else True
+        return True if any(v is True for v in vals) else None if any(v is None for v in vals) else False
+    if c[0] == "cmp" and len(c[1]) == 1 and len(c[2]) == 2:
+        op, (a, b) = c[1][0], c[2]
+        if b == MODE and a[0] == "const":
+            a, b = b, a
+        if a == MODE and b[0] == "const":
+            if op in ("Eq", "NotEq", "Is", "IsNot"):
+                if b[1] is None:
+                    r = m == "none"
+                elif b[1] == "brief":
+                    r = m == "brief"
+                elif isinstance(b[1], str) and b[1]:
+                    r = False if m in ("none", "brief") else None       # some other text mode: "text" stands for all of them
+                else:
+                    return None
+                if r is None:
+                    return None
+                return r if op in ("Eq", "Is") else not r
+    return None
+
+
+def _mode_leaf(v, m):
+    """the value a phi / ifexp tree over conditions on `mode` takes for the abstract mode m; None when a condition is not decided"""
+    while v[0] in ("phi", "ifexp"):
+        t = _mode_value(v[1], m)
+        if t is None:
+            return None
+        v = v[2] if t else v[3]
+    return v
+
+
 def _r3(ctx, pkg):
     fn = pkg.method("Network", "find_duplicate_reaction")
     ctx.saw(NF, "Network.find_duplicate_reaction")
-    fl = Flow(fn, NF)
+    # small pure helpers of the class (e.g. the construction of the check list) are read through
+    fl = Flow(fn, NF, resolver=lambda name: pkg.resolve("Network", name)[1])
     W = (NF, fn.lineno)
     RL = ("attr", SELF, "reaction_list")
     # the locals by role: (DUPES, DUPIDX, first) is the returned tuple; SEEN is the table `first` is read from (or, failing
     # that, the one the report is guarded by)
     DUPES, DUPIDX, SEEN = "dupes", "dupidx", "seen"
+    derived = None          # DUPES computed from DUPIDX after the loop: its value
     rets0 = [simp(f.value) for f in fl.facts if f.kind == "return"]
     if len(rets0) == 1 and rets0[0][0] == "tuple" and len(rets0[0][1]) == 3:
         a0, b0, c0 = rets0[0][1]
-        if a0[0] == "acc" and b0[0] == "acc":
-            DUPES, DUPIDX = a0[1], b0[1]
-        tabs = [x[1][1] for x in walk(c0) if isinstance(x, tuple) and len(x) == 5 and x[0] == "meth" and x[2] == "items" and x[1][0] == "acc"]
+        if b0[0] == "acc":
+            DUPIDX = b0[1]
+        if a0[0] == "acc":
+            DUPES = a0[1]
+        elif a0[0] == "comp":
+            DUPES, derived = None, a0
+        tabs = [x[1][1] for x in walk(c0) if isinstance(x, tuple) and len(x) == 5 and x[0] == "meth" and x[2] in ("items", "values") and x[1][0] == "acc"]
         if tabs:
             SEEN = tabs[0]
     ACC_SEEN = ("acc", SEEN)
+
+    def isseen(k):
+        return ("cmp", ("In",), (k, ACC_SEEN))        # guards are kept in positive form: unseen = (isseen, False)
+
+    # locals standing for the entry of the current key: `members = seen.get(chk)` / `seen[chk]`, bound once
+    entry = {}
+    for nm in {f.target for f in fl.facts if f.kind == "init"}:
+        ini = [f for f in fl.facts if f.kind == "init" and f.target == nm]
+        if len(ini) == 1 and ini[0].loops:
+            v = simp(ini[0].value)
+            if v[0] == "meth" and v[1] == ACC_SEEN and v[2] == "get" and not v[4] and (len(v[3]) == 1 or (len(v[3]) == 2 and v[3][1] == ("const", None))):
+                entry[("acc", nm)] = v[3][0]
+            elif v[0] == "sub" and v[1] == ACC_SEEN:
+                entry[("acc", nm)] = v[2]
+    for nm, lst in fl.assigns.items():
+        if ("acc", nm) not in entry and len(lst) == 1 and lst[0][1]:
+            v = simp(lst[0][0])
+            if v[0] == "meth" and v[1] == ACC_SEEN and v[2] == "get" and not v[4] and (len(v[3]) == 1 or (len(v[3]) == 2 and v[3][1] == ("const", None))):
+                entry[v] = v[3][0]
+
+    def cguard(g, p):
+        """guard in canonical form: tests of the current entry (`seen.get(k) is None`, truthiness of the fetched entry -- stored
+        values are non-empty lists, checked below) are membership tests of the key"""
+        g, p = norm_guard((simp(g), p))
+        for e, k in entry.items():
+            get = e if e[0] == "meth" else None
+            if g == e or (get is None and g == ("meth", ACC_SEEN, "get", (k,), ())):
+                return (isseen(k), p)
+            for lhs in (e, ("meth", ACC_SEEN, "get", (k,), ()), ("meth", ACC_SEEN, "get", (k, ("const", None)), ())):
+                if g == ("cmp", ("Is",), (lhs, ("const", None))) or g == ("cmp", ("Eq",), (lhs, ("const", None))):
+                    return (isseen(k), not p)
+        m_ = {e: ("sub", ACC_SEEN, k) for e, k in entry.items()}
+        return (simp(subst(g, m_)), p) if m_ else (g, p)
+
+    def cguards(f):
+        return [cguard(g, p) for g, p in f.guards]
+
+    def about_table(g):
+        return any(x == ACC_SEEN or x in entry for x in walk(g))
+
     stores = [f for f in fl.facts if f.kind == "store" and f.target == SEEN]
     reports = [f for f in fl.facts if f.kind == "append" and f.target in (DUPES, DUPIDX)]
-    grows = [f for f in fl.facts if f.kind == "call" and f.target == "append" and f.value[1][0] == "sub" and f.value[1][1] == ACC_SEEN]
+    # growth of an entry: seen[k].append(v)  /  members.append(v) with members the fetched entry
+    grows = []
+    for f in fl.facts:
+        if f.kind == "call" and f.target == "append" and f.value[1][0] == "sub" and f.value[1][1] == ACC_SEEN and len(f.value[3]) == 1:
+            grows.append((simp(f.value[1][2]), simp(f.value[3][0]), f))
+        elif f.kind == "append" and ("acc", f.target) in entry:
+            grows.append((entry[("acc", f.target)], simp(f.value), f))
     # whatever the shape of the table: an entry written for a key that is already there, with a value that does not
     # build on the old entry, forgets the first occurrence -- and `first` / the report are derived from the table
+    opaque = False
     for st in stores:
         k_ = simp(st.index)
-        g_ = [norm_guard((simp(g), p)) for g, p in st.guards]
-        reads_old = any(x == ACC_SEEN for x in walk(simp(st.value)))
-        if (("cmp", ("In",), (k_, ACC_SEEN)), False) not in g_ and not reads_old:
-            ctx.bad("R3", "store only when unseen", (NF, st.line), "the first-seen table is overwritten for a key that is already in it: the recorded occurrence is the previous one, not the first "
-                    "(classes of three or more members report a wrong first member)", expected="if chk not in seen: seen[chk] = [idx]",
-                    found="; ".join(("" if p else "not ") + show(g)[:60] for g, p in g_) or "unguarded store")
-    if len(stores) != 1 or len(reports) != 2 or len(grows) != 1:
+        g_ = cguards(st)
+        reads_old = any(x == ACC_SEEN or x in entry for x in walk(simp(st.value)))
+        if (isseen(k_), False) in g_ or reads_old:
+            continue
+        if any(about_table(g) and g != isseen(k_) for g, _ in g_):
+            opaque = True        # guarded by a test of the table this rule does not read: not evidence of an overwrite
+            continue
+        ctx.bad("R3", "store only when unseen", (NF, st.line), "the first-seen table is overwritten for a key that is already in it: the recorded occurrence is the previous one, not the first "
+                "(classes of three or more members report a wrong first member)", expected="if chk not in seen: seen[chk] = [idx]",
+                found="; ".join(("" if p else "not ") + show(g)[:60] for g, p in g_) or "unguarded store")
+    nrep = 2 if derived is None else 1
+    if len(stores) != 1 or len(reports) != nrep or len(grows) != 1 or opaque:
         ctx.unrec("R3", "find_duplicate_reaction", W, f"first-seen table not recognised (stores {len(stores)}, report appends {len(reports)}, growth {len(grows)})")
         return
     st = stores[0]
     key = simp(st.index)
     lp = st.loops[0] if len(st.loops) == 1 else None
-    isseen = ("cmp", ("In",), (key, ACC_SEEN))        # guards are kept in positive form: unseen = (isseen, False)
+    SEENK = isseen(key)
     # loop
     it = simp(lp.iter) if lp else None
     chk = it[2][0] if it and it[0] == "call" and it[1] == ("global", "enumerate") and len(it[2]) == 1 else ("const", None)
     ok_loop = lp is not None and it == ("call", ("global", "enumerate"), (chk,), ())
     ctx.check(ok_loop, "R3", "loop", (NF, lp.line if lp else fn.lineno), "every entry of the check list is visited once, in order, with its index", found=show(it)[:100] if it else "")
-    ctx.check([norm_guard((simp(g), p)) for g, p in st.guards] == [(isseen, False)], "R3", "store only when unseen", (NF, st.line),
-              "a key enters `seen` exactly when it was not there", expected="if chk not in seen: seen[chk] = [idx]", found="; ".join(show(simp(g))[:60] for g, _ in st.guards))
+    ctx.check(cguards(st) == [(SEENK, False)], "R3", "store only when unseen", (NF, st.line),
+              "a key enters `seen` exactly when it was not there", expected="if chk not in seen: seen[chk] = [idx]", found="; ".join(show(g)[:60] for g, _ in cguards(st)))
     v = simp(st.value)
     ctx.check(v[0] == "list" and len(v[1]) == 1 and v[1][0][0] == "idx", "R3", "stored list non-empty", (NF, st.line), "the stored value is the one-element list [idx]", found=show(v)[:60])
     for f in reports:
-        g = [norm_guard((simp(x), p)) for x, p in f.guards]
-        base_ok = g and g[0] == (isseen, True)
+        g = cguards(f)
+        base_ok = g and g[0] == (SEENK, True)
         extra = g[1:]
         taut = True
         why = ""
@@ -164,20 +296,32 @@ def _r3(ctx, pkg):
                 continue
             if p and x == ("sub", ACC_SEEN, key):
                 continue        # the same test in its canonical spelling: the stored list is non-empty (truthy)
+            if x == SEENK and p:
+                continue        # the membership test repeated
             taut = False
             why = show(x)[:80]
-        ctx.check(bool(base_ok) and taut, "R3", f"report:{f.target}", (NF, f.line),
+        role = "dupes" if f.target == DUPES else "dupidx"
+        ctx.check(bool(base_ok) and taut, "R3", f"report:{role}", (NF, f.line),
                   "a reaction is reported iff its key was seen before" if base_ok and taut else
                   f"the report is additionally guarded by `{why}`, which is not always true in the seen arm: the second member of a repeated class is not reported",
                   expected="report in the `else` of `chk not in seen` (any extra guard a tautology such as len(seen[chk]) >= 1)", found="; ".join(("" if p else "not ") + show(x)[:50] for x, p in g))
-    d = [f for f in reports if f.target == DUPES][0]
     i = [f for f in reports if f.target == DUPIDX][0]
     idx = ("idx", chk, lp.id) if lp else None
-    ctx.check(simp(i.value) == idx and simp(d.value) == ("sub", RL, idx), "R3", "report values", (NF, d.line),
-              "the reported pair is (reactions[idx], idx) of the current entry", found=f"{show(simp(d.value))[:60]} / {show(simp(i.value))[:40]}")
-    g = grows[0]
-    gg = [norm_guard((simp(x), p)) for x, p in g.guards]
-    ctx.check(gg == [(isseen, True)] and simp(g.value[3][0]) == idx, "R3", "seen arm appends index", (NF, g.line), "every later occurrence appends its index to the key's list, unconditionally",
+    if derived is None:
+        d = [f for f in reports if f.target == DUPES][0]
+        ctx.check(simp(i.value) == idx and simp(d.value) == ("sub", RL, idx), "R3", "report values", (NF, d.line),
+                  "the reported pair is (reactions[idx], idx) of the current entry", found=f"{show(simp(d.value))[:60]} / {show(simp(i.value))[:40]}")
+    else:
+        # the reported reactions are read off the reported positions after the loop
+        m = as_map(derived)
+        if not m or m[2] != ("acc", DUPIDX):
+            ctx.unrec("R3", "report values", (NF, i.line), f"the reported reactions are neither appended with the positions nor a map over them: {show(derived)[:100]}")
+        else:
+            ctx.check(simp(i.value) == idx and m[1] == ("sub", RL, m[0]) and not m[3], "R3", "report values", (NF, i.line),
+                      "the reported pair is (reactions[idx], idx) of the current entry", found=f"{show(derived)[:60]} / {show(simp(i.value))[:40]}")
+    gk, gv, g = grows[0]
+    gg = cguards(g)
+    ctx.check(gg == [(SEENK, True)] and gk == key and gv == idx, "R3", "seen arm appends index", (NF, g.line), "every later occurrence appends its index to the key's list, unconditionally",
               found="; ".join(show(x)[:50] for x, _ in gg))
     # first
     rets = [f for f in fl.facts if f.kind == "return"]
@@ -186,29 +330,33 @@ def _r3(ctx, pkg):
     if len(rets) == 1 and simp(rets[0].value)[0] == "tuple" and len(simp(rets[0].value)[1]) == 3:
         a, b, c = simp(rets[0].value)[1]
         found = show(c)[:140]
-        if c[0] == "comp" and len(c[3]) == 1 and a == ("acc", DUPES) and b == ("acc", DUPIDX):
+        if c[0] == "comp" and len(c[3]) == 1 and (a == ("acc", DUPES) or derived is not None) and b == ("acc", DUPIDX):
             tg, itr, ifs = c[3][0]
+            idxes = None
             if itr == ("meth", ACC_SEEN, "items", (), ()) and tg[0] == "tuple" and len(tg[1]) == 2:
                 idxes = tg[1][1]
+            elif itr == ("meth", ACC_SEEN, "values", (), ()) and tg[0] == "bv":
+                idxes = tg
+            if idxes is not None:
                 okf = c[2] == ("sub", RL, ("sub", idxes, ("const", 0))) and tuple(ifs) == (("cmp", ("Gt",), (("call", ("global", "len"), (idxes,), ()), ("const", 1))),)
     ctx.check(okf, "R3", "first", (NF, rets[0].line if rets else fn.lineno), "`first` = reactions[idxes[0]] for every key seen more than once, in insertion order",
               expected="[reactions[idxes[0]] for _, idxes in seen.items() if len(idxes) > 1]", found=found)
-    # check list per mode
-    okm = False
-    if chk[0] == "phi" and chk[1] == ("cmp", ("Eq",), (("param", "mode"), ("const", "brief"))):
-        brief, rest = chk[2], chk[3]
+    # check list per mode: whatever the spelling of the dispatch, the list for mode None / "brief" / any other text
+    leaves = {m: _mode_leaf(chk, m) for m in ("none", "brief", "text")}
+    if chk[0] in ("phi", "ifexp") and all(v is not None for v in leaves.values()):
+        brief = leaves["brief"]
         m = as_map(brief)
         ok_b = bool(m) and m[2] == RL and not m[3] and m[1] == ("call", ("global", "Reaction"), (("attr", m[0], "reactants"), ("attr", m[0], "products")), ())
         ctx.check(ok_b, "R3", "mode brief", (NF, fn.lineno),
                   "brief mode compares Reaction(reactants, products): the multisets of species, nothing else" if ok_b else
                   "brief mode does not compare the reactant/product lists themselves (multiplicity or order information is lost or added)",
                   expected="[Reaction(re.reactants, re.products) for re in reactions]", found=show(brief)[:120])
-        ok_s = rest[0] == "phi" and rest[3] == RL
+        ok_s = leaves["none"] == RL
         if ok_s:
-            m2 = as_map(rest[2])
+            m2 = as_map(leaves["text"])
             ok_s = bool(m2) and m2[2] == RL and not m2[3] and m2[1][0] == "fstr" and len(m2[1][1]) == 1 and m2[1][1][0][0] == "fmt" and m2[1][1][0][1] == m2[0]
         ctx.check(bool(ok_s), "R3", "mode string/default", (NF, fn.lineno), "string modes compare f'{react:{mode}}' of every reaction; the default compares the reactions themselves",
-                  found=show(rest)[:140])
+                  found=f"{show(leaves['text'])[:100]} / {show(leaves['none'])[:40]}")
     else:
         ctx.unrec("R3", "check_list", W, f"mode dispatch not recognised: {show(chk)[:100]}")
     # the formatted names are in a total order (by name)
